@@ -57,7 +57,7 @@ func atomClass(atom string) string {
 	switch kind {
 	case "b":
 		return "banner"
-	case "x7":
+	case "x7", "x8", "x9":
 		return "extinfo"
 	case "m":
 		if arg == "7" {
@@ -119,7 +119,7 @@ func recordRead(lastKind string, step int, atom string) {
 		}
 		tables.Hit("handleAuthResponse.arm", c)
 	}
-	if kind, arg, _ := strings.Cut(atom, ":"); kind == "x7" {
+	if kind, arg, _ := strings.Cut(atom, ":"); kind == "x7" || kind == "x8" || kind == "x9" {
 		for _, a := range strings.Split(arg, ",") {
 			tables.Hit("certificateAlgo.underlying", a)
 		}
@@ -265,7 +265,7 @@ func forcedPolicy(r *hx.Rand, want map[string]bool, done map[string]bool, x *ses
 	switch x.lastKind {
 	case "SR":
 		if step == 0 && once("ext-info") {
-			return "x7:rsa-sha2-512,ssh-ed25519,ecdsa-sha2-nistp256"
+			return r.PickStr("x7:", "x8:", "x9:") + "rsa-sha2-512,ssh-ed25519,ecdsa-sha2-nistp256"
 		}
 		return "sa"
 	case "N":
@@ -445,7 +445,7 @@ func policy(r *hx.Rand, mode int, x *session, step int) string {
 			if r.Chance(1, 5) {
 				return "x7"
 			}
-			return "x7:" + randSigAlgs(r)
+			return r.PickStr("x7:", "x8:", "x9:") + randSigAlgs(r) // server-sig-algs first / last / alone
 		}
 		return "sa"
 	case "N":
@@ -589,7 +589,8 @@ func genPick(g *hx.Gen) {
 	sauth.Init()
 	exts := []string{"", "x7;", "x7:;", "x7:ssh-ed25519;", "x7:rsa-sha2-256;", "x7:rsa-sha2-512;", "x7:ssh-rsa;", "x7:rsa-sha2-512,rsa-sha2-256;",
 		"x7:rsa-sha2-256,rsa-sha2-512,ssh-rsa;", "x7:ssh-rsa,rsa-sha2-512;", "x7:ecdsa-sha2-nistp256,ssh-ed25519;", "x7:rsa-sha2-256-cert-v01@openssh.com;",
-		"x7:ssh-rsa-cert-v01@openssh.com;", "x7:ssh-ed25519-cert-v01@openssh.com;", "x7:unknown-alg;", "x7:rsa-sha2-256,;", "x7:,ssh-rsa;", "x7:RSA-SHA2-256;"}
+		"x7:ssh-rsa-cert-v01@openssh.com;", "x7:ssh-ed25519-cert-v01@openssh.com;", "x7:unknown-alg;", "x7:rsa-sha2-256,;", "x7:,ssh-rsa;", "x7:RSA-SHA2-256;",
+		"x8:rsa-sha2-512;", "x8:ssh-rsa,rsa-sha2-256;", "x9:rsa-sha2-256;", "x9:rsa-sha2-512,ssh-ed25519;"}
 	var signers []string
 	for _, id := range []int{1, 3, 4, 5, 6} {
 		t := sauth.Keys[id].Type
